@@ -12,6 +12,8 @@ LAYER = R + [list(b"layer")]
 ERRS = fsm.ERRS
 NAMES_ENV = [b"A", b"B.c", b".x", b"\xc3\xa9", b"\xff\x80", b"A B", b"=", b"PATH", b"A.append", b"x.y.z", b"-"]
 VALUES = [b"", b"v", b"a:b", b"\n", b"\x00\xff", b" v ", b"multi\nline\n"]
+# process types may contain dots, dashes and underscores; "worker.high" / "worker.low" / "worker" share a stem
+PROCS = [b"web", b"worker", b"worker.high", b"worker.low", b"w-1_x"]
 SUFFIXES = [b".append", b".default", b".delim", b".override", b".prepend"]
 
 
@@ -36,7 +38,7 @@ class C03:
     extra_imports = "From LV Require Import FS LayerEnv.\n"
     rule = ("layer directories with stray files from earlier environments; histories write(old) -> write(new) -> read "
             "with probes (4 scopes incl. an unknown process x 3 starting environments), environments over byte-class "
-            "names (dots, non-UTF-8, spaces, '=') x 5 behaviours x {all, build, launch, process web/worker} with raw "
+            "names (dots, non-UTF-8, spaces, '=') x 5 behaviours x {all, build, launch, process web / worker / worker.high / worker.low / w-1_x} with raw "
             "byte values (empty, NUL, newline); plus hand-made spec-shaped env directories for the read side "
             "(suffix-less files, unknown suffixes, directories and symlinks inside env dirs). non-trivial = at least "
             "one write with a non-empty environment or a read of a non-empty directory.")
@@ -68,7 +70,7 @@ class C03:
     def probes(self, names):
         env0s = [[], [[b(n), []] for n in names[:2]], [[b(n), b(b"p")] for n in names[:2]]]
         scopes = [scope_json("all"), scope_json("build"), scope_json("launch"), scope_json("process", b"web"),
-                  scope_json("process", b"other")]
+                  scope_json("process", b"other"), scope_json("process", b"worker.high"), scope_json("process", b"worker")]
         return [{"scope": s, "env0": e} for s in scopes for e in env0s]
 
     def rand_ins(self, rng, lo=0, hi=5, names=None):
@@ -76,7 +78,7 @@ class C03:
         out = []
         for _ in range(rng.randint(lo, hi)):
             k = rng.choice(["all", "all", "build", "launch", "process"])
-            s = scope_json(k) if k != "process" else scope_json("process", rng.choice([b"web", b"worker"]))
+            s = scope_json(k) if k != "process" else scope_json("process", rng.choice(PROCS))
             out.append({"s": s, "b": rng.choice(c04mod.BEHS), "n": b(rng.choice(names)), "v": b(rng.choice(VALUES))})
         return out
 
